@@ -4,9 +4,10 @@ import GeomV.C04.LoopLemmas
 receiver-derived fuel) is the model's fuel-free state machine `next2`. -/
 set_option linter.unusedVariables false
 set_option linter.unusedSimpArgs false
+set_option linter.unusedSectionVars false
 namespace GeomV.C04
 open GeomV
-variable {α : Type}
+variable {α : Type} [LT α] [DecidableLT α]
 
 theorem C04_tie_MultiLineString_Points (ls : List (List (Pt α))) (i j : Nat) :
     init (.multiLineString ls) = .ok (.two Gen.multiLineStringPointsInit.1 Gen.multiLineStringPointsInit.2) ∧
